@@ -257,15 +257,34 @@ func (u *Unit) comp(st *State, name, sort string) *Term {
 	if t, ok := u.initMem[name]; ok {
 		return t
 	}
-	t := u.ctx.Const(strings.NewReplacer(":", "_").Replace(name)+"_0", sort)
+	t := u.ctx.Const(u.symName(name)+"_0", sort)
 	u.initMem[name] = t
 	return t
+}
+
+// symName: SMT symbol stem for a component; element types are named by role
+// (E1, E2, ... in order of first use) so that instantiations with the same
+// structure produce byte-identical queries, which are solved once.
+func (u *Unit) symName(name string) string {
+	if i := strings.IndexByte(name, ':'); i >= 0 {
+		return name[:i] + "_" + u.roleOf(name[i+1:])
+	}
+	return name
+}
+
+func (u *Unit) roleOf(key string) string {
+	if s, ok := u.roles[key]; ok {
+		return s[2:]
+	}
+	s := fmt.Sprintf("U_E%d", len(u.roles)+1)
+	u.roles[key] = s
+	return s[2:]
 }
 
 func (u *Unit) setComp(st *State, name string, t *Term) { st.mem[name] = t }
 
 func (u *Unit) havoc(st *State, name, sort string) *Term {
-	t := u.ctx.Fresh(strings.NewReplacer(":", "_").Replace(name), sort)
+	t := u.ctx.Fresh(u.symName(name), sort)
 	st.mem[name] = t
 	return t
 }
